@@ -72,7 +72,7 @@ type c18Step struct {
 	kind int // 0 ok, 1 fail, 2 panic
 }
 
-func c18RunOne(beginOK, commitOK, rollbackOK bool, steps []int) (events []string, result string) {
+func c18RunOne(beginOK, commitOK, rollbackOK bool, steps []int, combined bool) (events []string, result string) {
 	s := &c18Script{beginOK: beginOK, commitOK: commitOK, rollbackOK: rollbackOK}
 	c18DrvSeq++
 	name := fmt.Sprintf("c18fake%d", c18DrvSeq)
@@ -107,7 +107,11 @@ func c18RunOne(beginOK, commitOK, rollbackOK bool, steps []int) (events []string
 	var outerPanic interface{}
 	func() {
 		defer func() { outerPanic = recover() }()
-		rerr = gormx.Transact(db, fns...)
+		if combined {
+			rerr = gormx.Transact(db, gormx.Combine(fns...))
+		} else {
+			rerr = gormx.Transact(db, fns...)
+		}
 	}()
 	switch {
 	case outerPanic != nil:
@@ -171,9 +175,9 @@ func main() {
 		}
 		var rec func(prefix []int, n int)
 		emit := func(steps []int) {
-			for m := 0; m < 8; m++ {
-				b, c, r := m&1 != 0, m&2 != 0, m&4 != 0
-				ev, res := c18RunOne(b, c, r, steps)
+			for m := 0; m < 16; m++ {
+				b, c, r, comb := m&1 != 0, m&2 != 0, m&4 != 0, m&8 != 0
+				ev, res := c18RunOne(b, c, r, steps, comb)
 				ss := make([]string, len(steps))
 				for i, k := range steps {
 					switch k {
@@ -185,10 +189,14 @@ func main() {
 						ss[i] = fmt.Sprintf("SPanic %d", i)
 					}
 				}
-				coq := fmt.Sprintf("({| begin_ok := %s; commit_ok := %s; rollback_ok := %s; steps := %s |}, (%s, %s))",
-					vh.CoqBool(b), vh.CoqBool(c), vh.CoqBool(r), vh.CoqList(ss), c18CoqEvents(ev), c18CoqResult(res))
-				e.Emit(vh.Case{Coq: coq, Class: fmt.Sprintf("steps=%d", len(steps)), Nontrivial: len(steps) > 0,
-					Desc: map[string]interface{}{"begin_ok": b, "commit_ok": c, "rollback_ok": r, "steps": steps, "events": ev, "result": res}})
+				coq := fmt.Sprintf("(%s, {| begin_ok := %s; commit_ok := %s; rollback_ok := %s; steps := %s |}, (%s, %s))",
+					vh.CoqBool(comb), vh.CoqBool(b), vh.CoqBool(c), vh.CoqBool(r), vh.CoqList(ss), c18CoqEvents(ev), c18CoqResult(res))
+				cls := "direct"
+				if comb {
+					cls = "combined"
+				}
+				e.Emit(vh.Case{Coq: coq, Class: fmt.Sprintf("%s steps=%d", cls, len(steps)), Nontrivial: len(steps) > 0,
+					Desc: map[string]interface{}{"combined": comb, "begin_ok": b, "commit_ok": c, "rollback_ok": r, "steps": steps, "events": ev, "result": res}})
 			}
 		}
 		rec = func(prefix []int, n int) {
@@ -204,6 +212,6 @@ func main() {
 			rec(nil, n)
 		}
 		e.Meta["exhaustive"] = true
-		e.Meta["space"] = fmt.Sprintf("all step vectors in {ok,fail,panic}^n for n=0..%d x begin/commit/rollback in {ok,fail}", maxSteps)
+		e.Meta["space"] = fmt.Sprintf("all step vectors in {ok,fail,panic}^n for n=0..%d x begin/commit/rollback in {ok,fail} x {steps passed directly, steps wrapped by Combine}", maxSteps)
 	})
 }
